@@ -384,14 +384,31 @@ func vIs(w ssa.Value) VM {
 
 // vConstInt matches an integer constant with the given value.
 func vConstInt(n int64) VM {
-	return anyOrigin(func(v ssa.Value) bool {
+	isN := func(v ssa.Value) bool {
 		c, ok := v.(*ssa.Const)
 		if !ok || c.Value == nil || c.Value.Kind() != constant.Int {
 			return false
 		}
 		x, ok := constant.Int64Val(c.Value)
 		return ok && x == n
-	})
+	}
+	// a constant is matched only when the value cannot be anything else: every
+	// origin is that constant (a variable that is *sometimes* 0 is not "0")
+	return func(v ssa.Value) bool {
+		os := origins(v)
+		if len(os) == 0 {
+			return false
+		}
+		for _, o := range os {
+			if _, isParam := o.(*ssa.Parameter); isParam && len(os) > 1 {
+				continue // the parameter of a virtually inlined helper, next to its arguments
+			}
+			if !isN(o) {
+				return false
+			}
+		}
+		return true
+	}
 }
 
 func isNilConst(v ssa.Value) bool {
